@@ -343,6 +343,38 @@ def stage_real_classes(ctx):
     ctx.cov['real_class_states'] = n
 
 
+RAW_LISTS = [
+    [r'(\w+)=', r'(\d)\1'], [r'(\$|#) ', 'E', r'(["\'])\w+\1'], [r'(a)(b)\2', r'(x)\1'], [r'(?P<q>[ab])c(?P=q)', r'c'],
+    [r'(?<=id: )\d\d', r'zz'], [r'(?<!x)ab', r'(b)\1'], [r'(a|b)\1+', r'(?:ab)+', 'T'], [r'\bab\b', r'(.)\1\1'],
+]
+RAW_STREAMS = ['.. 77 .. x=1', 'say "hello" now\n$ ', 'abb xx abb', 'acb aca bcb', 'user id: 42\r\n', 'xab ab bb', 'aab bbb abab', ' ab aaa ab']
+
+
+def stage_raw_regexes(ctx, prop):
+    """regex lists outside the modelled grammar (numbered and named groups, back-references, look-behind, word boundaries), every stream cut at
+    random places: the real search against naive re-search of all pending text with the caller's own compiled patterns"""
+    rng = ctx.rng
+    n = 0
+    for _ in range(400 if ctx.quick() else 6000):
+        lst = rng.choice(RAW_LISTS)
+        text = rng.choice(RAW_STREAMS) + rng.choice(['', ' ' + rng.choice(RAW_STREAMS)])
+        cuts = sorted(rng.randrange(0, len(text) + 1) for _ in range(rng.choice([0, 1, 2, 4])))
+        chunks, prev = [], 0
+        for c_ in cuts + [len(text)]:
+            if c_ > prev:
+                chunks.append(text[prev:c_]); prev = c_
+        pats = [['E'] if q == 'E' else ['T'] if q == 'T' else ['re', 's', ['raw', q]] for q in lst]
+        case = dict(mode=rng.choice('bu'), ops=[dict(k='r', W=rng.choice([None, None, 40]), pats=pats)], script=[['d', ch] for ch in chunks] + [['T']])
+        res = X.evaluate(case)
+        n += 1
+        msg = res['oracle'][prop]
+        if msg:
+            common.report(ctx, classify(prop, case, res) + '/raw', msg + ' (patterns %r)' % (lst,), dict(case=case, real=res['real'], naive=res['naive'],
+                          how='harness/drivers/expecter.py evaluate(case)'))
+            break
+    ctx.cov['raw_regex_cases'] = n
+
+
 def run(ctx):
     prop = ctx.prop
     common.prove(ctx, MODULES[prop])
@@ -407,6 +439,8 @@ def run(ctx):
     if model_naive_fail and not first_oracle_fail and not first_corr_fail:
         c, res = model_naive_fail
         ctx.broken.append('Lean model disagrees with the naive oracle on %s' % json.dumps(c)[:300])
+    if prop in ('C02', 'C03') and not first_oracle_fail:
+        stage_raw_regexes(ctx, prop)
     if prop == 'C04':
         stage_real_classes(ctx)
     distinct = sum(1 for s in sigs if nontrivial(s))
